@@ -35,12 +35,29 @@ instance (o : Option Nat) (used : List Blk) : Decidable (EnvOkG o used) := by un
 theorem EnvOkG.suffix {o : Option Nat} {u u' : List Blk} (h : EnvOkG o u') (hs : u <:+ u') : EnvOkG o u :=
   ⟨h.1.suffix hs, h.2.suffix hs⟩
 
+/-- number of cells the blocks in use were cut into (`usable size / node size` each) -/
+def blockCells (ns : Nat) (used : List Blk) : Nat := (used.map fun b => b.usable.size / ns).sum
+
+@[simp] theorem blockCells_cons (ns : Nat) (b : Blk) (used : List Blk) :
+    blockCells ns (b :: used) = b.usable.size / ns + blockCells ns used := by simp [blockCells]
+
+theorem liveCells_length_cons (ns : Nat) (a b : Nat) (live : List (Nat × Nat)) :
+    (liveCells ns ((a, b) :: live)).length = cellsOf ns b + (liveCells ns live).length := by
+  simp [liveCells_cons]
+
+theorem liveCells_length_erase {ns : Nat} {live : List (Nat × Nat)} {i a b : Nat} (h : live[i]? = some (a, b)) :
+    (liveCells ns live).length = cellsOf ns b + (liveCells ns (live.eraseIdx i)).length := by
+  have := (liveCells_erase (ns := ns) h).length_eq
+  simpa using this
+
 /-- **The C01 invariant of a pool over an intrusive list**: node size `ns`, list object `o`. -/
 structure PInvG (ns : Nat) (o : Option Nat) (p : Pool) (live : List (Nat × Nat)) : Prop where
   nsEq : p.list.nodeSize = ns
   objEq : p.list.obj = o
   sinv : p.list.SInv
   cell : CellInv ns p.list.cells p.arena.used live
+  /-- **exact accounting**: every cell of every block in use is either free or part of a live allocation -/
+  full : p.list.cells.length + (liveCells ns live).length = blockCells ns p.arena.used
 
 /-- a range inside the usable part of a used block lies outside the list object -/
 theorem outObj_of_inBlk {o : Option Nat} {used : List Blk} (ho : ObjOut o used) {b : Blk} (hb : b ∈ used)
@@ -67,46 +84,63 @@ theorem Pool.allocateBlock_invG {ns : Nat} {o : Option Nat} {p : Pool} {live : L
   | envMissing => exact ⟨h, by simp⟩
   | fail a e ev env' =>
     simp only [harena] at hb hsub ⊢
-    exact ⟨⟨h.nsEq, h.objEq, h.sinv, h.cell.mono hb.1 (fun b hb => hsub hb)⟩, by simp⟩
+    have hu := Arena.allocateBlock_fail harena
+    exact ⟨⟨h.nsEq, h.objEq, h.sinv, h.cell.mono hb.1 (fun b hb => hsub hb), by show _ = blockCells ns a.used; rw [hu]; exact h.full⟩,
+      by simp⟩
   | ok a ub ev env' =>
     simp only [harena] at hb hsub ⊢
     obtain ⟨blk, h1, rfl⟩ := Arena.allocateBlock_ok harena
+    have hbu : EnvOkG o (blk :: p.arena.used) := by
+      cases hins : p.list.insert cfg blk.usable.base blk.usable.size <;> simp only [hins] at hb <;> rw [h1] at hb <;> exact hb
+    have hbw := hbu.1.1 blk (by simp)
+    unfold Blk.Wf at hbw
+    have hdiv := Nat.div_mul_le_self blk.usable.size ns
+    have hus : blk.usable.base = blk.base + 16 ∧ blk.usable.size = blk.size - 16 := by
+      unfold Blk.usable; rw [implOff_eq]; exact ⟨rfl, rfl⟩
+    rw [implOff_eq] at hbw
+    -- the new block's cells are apart from the old cells
+    have hap : p.list.CellsApart blk.usable.base (blk.usable.size / p.list.nodeSize) := by
+      intro y hy
+      rw [h.nsEq]
+      obtain ⟨c, hc, hy1, hy2⟩ := h.cell.freeIn y hy
+      have hd : blk.Disj c := (List.pairwise_cons.mp hbu.1.2).1 c hc
+      unfold Blk.Disj at hd
+      rw [implOff_eq] at hy1
+      omega
+    have hout : AnyList.OutObj p.list.obj blk.usable.base (blk.usable.size / p.list.nodeSize * p.list.nodeSize) := by
+      rw [h.nsEq, h.objEq]
+      refine outObj_of_inBlk hbu.2 (b := blk) (by simp) ?_
+      unfold InBlk; rw [implOff_eq]; omega
+    have htot := AnyList.insert_total cfg (mem := blk.usable.base) (size := blk.usable.size) h.sinv
+      (by rw [h.nsEq]; exact hnsP) hap hout (by omega)
+    rw [h.nsEq] at htot
+    -- a block too small for one node is pushed without contributing a cell
+    have hzero : blk.usable.size / ns = 0 → ∀ r : PRes Pool, r.st = { p with arena := a } → (∀ x, r.out ≠ .ok x) →
+        PInvG ns o r.st live ∧ (∀ x, r.out ≠ .ok x) := by
+      intro hz r hr hno
+      rw [hr]
+      exact ⟨⟨h.nsEq, h.objEq, h.sinv, by show CellInv ns p.list.cells a.used live; rw [h1]; exact h.cell.mono hbu.1 (by simp +contextual),
+        by show _ = blockCells ns a.used; rw [h1, blockCells_cons, hz, Nat.zero_add]; exact h.full⟩, hno⟩
     cases hins : p.list.insert cfg blk.usable.base blk.usable.size with
     | handler k =>
-      simp only [hins] at hb hsub ⊢
-      exact ⟨⟨h.nsEq, h.objEq, h.sinv, h.cell.mono hb.1 (fun b hb => hsub hb)⟩, by simp⟩
+      rcases htot with ⟨l', hl'⟩ | hz
+      · rw [hins] at hl'; cases hl'
+      · exact hzero hz _ rfl (by simp)
     | crash =>
-      simp only [hins] at hb hsub ⊢
-      exact ⟨⟨h.nsEq, h.objEq, h.sinv, h.cell.mono hb.1 (fun b hb => hsub hb)⟩, by simp⟩
+      rcases htot with ⟨l', hl'⟩ | hz
+      · rw [hins] at hl'; cases hl'
+      · exact hzero hz _ rfl (by simp)
     | ok l' =>
-      simp only [hins] at hb hsub ⊢
-      rw [h1] at hb
-      have hbw := hb.1.1 blk (by simp)
-      unfold Blk.Wf at hbw
-      have hdiv := Nat.div_mul_le_self blk.usable.size ns
-      have hus : blk.usable.base = blk.base + 16 ∧ blk.usable.size = blk.size - 16 := by
-        unfold Blk.usable; rw [implOff_eq]; exact ⟨rfl, rfl⟩
-      rw [implOff_eq] at hbw
-      -- the new block's cells are apart from the old cells
-      have hap : p.list.CellsApart blk.usable.base (blk.usable.size / p.list.nodeSize) := by
-        intro y hy
-        rw [h.nsEq]
-        obtain ⟨c, hc, hy1, hy2⟩ := h.cell.freeIn y hy
-        have hd : blk.Disj c := (List.pairwise_cons.mp hb.1.2).1 c hc
-        unfold Blk.Disj at hd
-        rw [implOff_eq] at hy1
-        omega
-      have hout : AnyList.OutObj p.list.obj blk.usable.base (blk.usable.size / p.list.nodeSize * p.list.nodeSize) := by
-        rw [h.nsEq, h.objEq]
-        refine outObj_of_inBlk hb.2 (b := blk) (by simp) ?_
-        unfold InBlk; rw [implOff_eq]; omega
       obtain ⟨hperm, hsame⟩ := AnyList.insert_spec cfg h.sinv (by rw [h.nsEq]; exact hnsP) hap hout (by omega) hins
       rw [h.nsEq] at hperm
-      refine ⟨⟨hsame.ns.trans h.nsEq, hsame.obj.trans h.objEq, hsame.sinv, ?_⟩, by simp⟩
-      show CellInv ns l'.cells a.used live
-      rw [h1]
-      exact h.cell.insertCells hb.1 (blockNodes_pairwise _ _ _)
-        (CellInv.blockNodes_in (Nat.le_refl _) (Nat.le_refl _)) hperm
+      refine ⟨⟨hsame.ns.trans h.nsEq, hsame.obj.trans h.objEq, hsame.sinv, ?_, ?_⟩, by simp⟩
+      · show CellInv ns l'.cells a.used live
+        rw [h1]
+        exact h.cell.insertCells hbu.1 (blockNodes_pairwise _ _ _)
+          (CellInv.blockNodes_in (Nat.le_refl _) (Nat.le_refl _)) hperm
+      · show l'.cells.length + _ = blockCells ns a.used
+        rw [h1, blockCells_cons, hperm.length_eq, List.length_append, blockNodes_length, ← h.full]
+        omega
 
 /-! ### taking from / giving to the list, at pool level -/
 
@@ -115,15 +149,21 @@ theorem PInvG.alloc {ns : Nat} {o : Option Nat} {p : Pool} {live : List (Nat × 
     PInvG ns o { p with list := l } ((a, bytes) :: live) := by
   obtain ⟨B, h1, h2, hsame⟩ := AnyList.allocate_spec h.sinv ha
   have hc : cellsOf ns bytes = 1 := by simp [cellsOf, hb]
-  refine ⟨hsame.ns.trans h.nsEq, hsame.obj.trans h.objEq, hsame.sinv, ?_⟩
-  exact h.cell.take (A := []) (B := B) (f := a) (bytes := bytes) (by rw [hc, blockNodes_one, h1]; rfl) (by rw [h2]; rfl)
+  refine ⟨hsame.ns.trans h.nsEq, hsame.obj.trans h.objEq, hsame.sinv, ?_, ?_⟩
+  · exact h.cell.take (A := []) (B := B) (f := a) (bytes := bytes) (by rw [hc, blockNodes_one, h1]; rfl) (by rw [h2]; rfl)
+  · show l.cells.length + _ = _
+    rw [liveCells_length_cons, hc, h2, ← h.full, h1]
+    simp only [List.length_cons]; omega
 
 theorem PInvG.allocBytes {ns : Nat} {o : Option Nat} {p : Pool} {live : List (Nat × Nat)} (h : PInvG ns o p live)
     {l : AnyList} {a bytes : Nat} (ha : p.list.allocateBytes bytes = some (l, some a)) :
     PInvG ns o { p with list := l } ((a, bytes) :: live) := by
   obtain ⟨A, B, h1, h2, hsame⟩ := AnyList.allocateBytes_spec h.sinv (by rw [h.nsEq]; exact h.cell.nsPos) ha
   rw [h.nsEq] at h1
-  exact ⟨hsame.ns.trans h.nsEq, hsame.obj.trans h.objEq, hsame.sinv, h.cell.take h1 h2⟩
+  refine ⟨hsame.ns.trans h.nsEq, hsame.obj.trans h.objEq, hsame.sinv, h.cell.take h1 h2, ?_⟩
+  show l.cells.length + _ = _
+  rw [liveCells_length_cons, h2, ← h.full, h1]
+  simp only [List.length_append, blockNodes_length]; omega
 
 /-- postcondition of an allocation function: a returned address is entered in the ledger with `bytes` -/
 def PostG (ns : Nat) (o : Option Nat) (live : List (Nat × Nat)) (bytes : Nat) (r : PRes Pool) : Prop :=
@@ -279,8 +319,12 @@ theorem Pool.deallocateNode_invG {ns : Nat} {o : Option Nat} {p : Pool} {live : 
   unfold Pool.deallocateNode
   rw [hd]
   simp only [liftList]
-  refine ⟨⟨hsame.ns.trans h.nsEq, hsame.obj.trans h.objEq, hsame.sinv, ?_⟩, trivial⟩
-  exact h.cell.give hi (by rw [hc, blockNodes_one]; exact hperm)
+  refine ⟨⟨hsame.ns.trans h.nsEq, hsame.obj.trans h.objEq, hsame.sinv, ?_, ?_⟩, trivial⟩
+  · exact h.cell.give hi (by rw [hc, blockNodes_one]; exact hperm)
+  · show l'.cells.length + _ = _
+    have := liveCells_length_erase (ns := ns) hi
+    rw [hperm.length_eq, ← h.full, this, hc]
+    simp only [List.length_cons]; omega
 
 theorem Pool.deallocateBytes_invG {ns : Nat} {o : Option Nat} {p : Pool} {live : List (Nat × Nat)} (cfg : Cfg)
     (h : PInvG ns o p live) (ho : ObjOut o p.arena.used) {i a b : Nat} (hi : live[i]? = some (a, b)) (hb : ns < b) :
@@ -293,9 +337,14 @@ theorem Pool.deallocateBytes_invG {ns : Nat} {o : Option Nat} {p : Pool} {live :
   unfold Pool.deallocateBytes
   rw [hd]
   simp only [liftList]
-  refine ⟨⟨hsame.ns.trans h.nsEq, hsame.obj.trans h.objEq, hsame.sinv, ?_⟩, trivial⟩
-  rw [h.nsEq] at hperm
-  exact h.cell.give hi (by rw [hc]; exact hperm)
+  refine ⟨⟨hsame.ns.trans h.nsEq, hsame.obj.trans h.objEq, hsame.sinv, ?_, ?_⟩, trivial⟩
+  · rw [h.nsEq] at hperm
+    exact h.cell.give hi (by rw [hc]; exact hperm)
+  · show l'.cells.length + _ = _
+    rw [h.nsEq] at hperm
+    have := liveCells_length_erase (ns := ns) hi
+    rw [hperm.length_eq, ← h.full, this, hc]
+    simp only [List.length_append, blockNodes_length]; omega
 
 /-! ### one step, a whole history -/
 
@@ -368,7 +417,8 @@ theorem PInvG.fresh (src : Src) (l : AnyList) (arrays : Bool) (hS : l.SInv) (hc 
       blocks := ⟨by simp, List.Pairwise.nil⟩
       apart := by simp [hc]
       freeIn := by intro x hx; simp [hc] at hx
-      liveIn := by intro x hx; cases hx }⟩
+      liveIn := by intro x hx; cases hx },
+    by simp [hc, blockCells]⟩
 
 /-- the constructor establishes the invariant (whatever its outcome) -/
 theorem Pool.create_invG (cfg : Cfg) (src : Src) (l : AnyList) (arrays : Bool) (env : List (Option Nat))
